@@ -381,6 +381,8 @@ func (r *Run) DoCmd(c Cmd) *Proc {
 				}
 				if onlyResults {
 					prop = "C20" // results dropped, duplicated, reordered or altered by compaction
+				} else if textChanged(pre, post) {
+					prop = "C17" // a title or body does not come back as it went in
 				}
 			} else if c.Op == "init" {
 				prop = "C18"
@@ -1198,4 +1200,21 @@ func (r *Run) DoDisk(d *DiskOp) {
 		}
 	}
 	r.Obs = nil
+}
+
+// textChanged: did some item's title or body change between two observations?
+func textChanged(a, b *Obs) bool {
+	for id, x := range a.Items {
+		y := b.Items[id]
+		if y == nil {
+			continue
+		}
+		if x.InList && y.InList && x.LTitle != y.LTitle {
+			return true
+		}
+		if x.Shown && y.Shown && (x.Title != y.Title || x.Body != y.Body) {
+			return true
+		}
+	}
+	return false
 }
